@@ -184,8 +184,10 @@ theorem printDepth_le (c : Cfg) (g : Graph) (h : ∀ v, printReenters c (g.kind 
             exact ih (ctr + 1) j (by omega))
         omega
 
-theorem printDepth_box_chain (n : Nat) :
-    ∀ (i fuel : Nat), i ≤ n → i + 1 ≤ fuel → printDepth Cfg.current (chain .box n) fuel 0 i = i + 1 := by
+/-- a chain of a kind whose Display re-enters `Display for SteelVal`: the counter restarts at every level -/
+theorem printDepth_reentrant_chain (c : Cfg) (k : Kind) (hk : printReenters c k = true) (n : Nat) :
+    ∀ (i fuel : Nat), i ≤ n → i + 1 ≤ fuel → printDepth c (chain k n) fuel 0 i = i + 1 := by
+  have hkl : k ≠ .leaf := by intro h; subst h; simp [printReenters] at hk
   intro i
   induction i with
   | zero =>
@@ -193,19 +195,20 @@ theorem printDepth_box_chain (n : Nat) :
     cases fuel with
     | zero => omega
     | succ f =>
-      have hk : (chain .box n).kind 0 = .leaf := by simp [Graph.kind, chain_node .box n 0 (by omega)]
-      simp [printDepth, printLimit, hk]
+      have h0 : (chain k n).kind 0 = .leaf := by simp [Graph.kind, chain_node k n 0 (by omega)]
+      simp [printDepth, printLimit, h0]
   | succ i ih =>
     intro fuel hi hf
     cases fuel with
     | zero => omega
     | succ f =>
-      have hk : (chain .box n).kind (i + 1) = .box := chain_kind .box n (i + 1) (by omega) hi
+      have hkind : (chain k n).kind (i + 1) = k := chain_kind k n (i + 1) (by omega) hi
       have hih := ih f (by omega) (by omega)
-      have hre : printReenters Cfg.current .box = true := by decide
-      simp only [printDepth, printLimit, hk, chain_sons .box (by decide) n (i + 1) (by omega) hi, hre, if_true,
-        List.map_cons, List.map_nil, maxL, Nat.add_sub_cancel, hih]
-      simp
-      omega
+      have hs := chain_sons k hkl n (i + 1) (by omega) hi
+      cases k <;> simp [printReenters] at hk <;>
+        (simp only [printDepth, printLimit, hkind, hs, printReenters, hk, if_true,
+          List.map_cons, List.map_nil, maxL, Nat.add_sub_cancel, hih]
+         simp
+         omega)
 
 end SteelVerif.C18
